@@ -1,6 +1,7 @@
 import Model.Req
 import Model.ReqFacts
 import Model.ReqSite
+import Model.ReqLimit
 import Spec.Req
 import Generated.C11Superglobals
 import Drivers.Common
@@ -21,6 +22,12 @@ import Drivers.Common
      `Model.ReqSite`: every request runs  mk·gate·call·gate·call·write  through ONE closure literal with its
      own datum d; scope `gen` = from the regenerated node-write facts, `node` / `eval` explicit
     → per request the data its two calls observed  <v>,<v>  joined by `;`   (`~` = not reached / null)
+  limit <TAB> gen <TAB> <callee>,<callee>,… <TAB> <req>;<req>;… <TAB> <turn>,<turn>,…
+     `Model.ReqLimit` with the guards of the regenerated facts (`guardsOf facts`): callee = the Go function
+     executing a kind of frame ("node.ClassMethod.Call"); req = the frames the request descends through,
+     outermost first, as indices into the callee list, space separated; its program is
+     enter… gate leave… write; turn as above
+    → per request  ok | fail:<reported depth> | running   joined by `;`
   facts                                   → summary of the regenerated facts
 -/
 open Model.Req
@@ -145,8 +152,38 @@ def handleSite (scope : String) (ds : String) (turns : String) : String :=
       showObs [obs.getD 0 none, obs.getD 1 none])
   | _, _, _ => "bad-site"
 
+/-- one gate-level turn of `Model.ReqLimit`: request `r` runs up to and including its next gate, or to its end -/
+def limitTurn (w : Model.ReqLimit.World) (r : Nat) : Nat → Model.ReqLimit.State → Model.ReqLimit.State
+  | 0, s => s
+  | fuel + 1, s =>
+    match (s.req r).pc with
+    | [] => s
+    | .gate :: _ => Model.ReqLimit.stepReq w s r
+    | _ => limitTurn w r fuel (Model.ReqLimit.stepReq w s r)
+
+def handleLimit (cfg : String) (callees : String) (reqs : String) (turns : String) : String :=
+  if cfg != "gen" then "bad-cfg" else
+  let names := callees.splitOn ","
+  let frames : Option (List (List Nat)) := (reqs.splitOn ";").mapM fun r =>
+    if r.isEmpty then some [] else (r.splitOn " ").mapM String.toNat?
+  match frames, (if turns.isEmpty then some [] else (turns.splitOn ",").mapM String.toNat?) with
+  | some frames, some turns =>
+    let progs : List (List Model.ReqLimit.Step) := frames.map fun fs =>
+      fs.map (fun i => Model.ReqLimit.Step.enter (names.getD i "?")) ++ [.gate] ++ fs.map (fun _ => .leave) ++ [.write]
+    let w : Model.ReqLimit.World :=
+      { n := progs.length, guards := Model.ReqLimit.guardsOf Generated.C11Superglobals.facts,
+        prog := fun r => progs.getD r [] }
+    let s := turns.foldl (fun s r => limitTurn w r ((progs.getD r []).length + 1) s) (Model.ReqLimit.init w)
+    ";".intercalate ((List.range progs.length).map fun r =>
+      match (s.req r).out with
+      | .ok => "ok"
+      | .refused n => s!"fail:{n}"
+      | .running => "running")
+  | _, _ => "bad-req"
+
 def handle (line : String) : String :=
   match line.splitOn "\t" with
+  | ["limit", cfg, callees, reqs, turns] => handleLimit cfg callees reqs turns
   | ["site", scope, ds, turns] => handleSite scope ds turns
   | ["sched", cfg, reqs, turns] =>
     match parseCfg cfg with
@@ -169,7 +206,7 @@ def handle (line : String) : String :=
   | ["facts"] =>
     let f := Generated.C11Superglobals.facts
     let sc := String.ofList (Kind.all.map fun k => if f.scope k = .perRequest then 'R' else 'P')
-    s!"scope={sc} handlerResets={f.handlerResets} outer={f.outer} violations={f.violations.length} entryViolations={f.entryViolations.length} nodeWrites={f.nodeWrites.length} nodeWriteViolations={f.nodeWriteViolations}"
+    s!"scope={sc} handlerResets={f.handlerResets} outer={f.outer} violations={f.violations.length} entryViolations={f.entryViolations.length} nodeWrites={f.nodeWrites.length} nodeWriteViolations={f.nodeWriteViolations} depthGuards={f.depthGuards.map (fun d => s!"{d.fn}:{d.counter}:{d.limit}:{d.decidesOn}:{d.ownLimit}")} guardViolations={f.guardViolations} limits={",".intercalate (f.limits.map toString)}"
   | _ => "bad-op"
 
 def main : IO Unit := Drivers.runDriver handle
